@@ -471,7 +471,18 @@ func c15Defer(c *Ctx, fn *ssa.Function, ct *ssa.Call, src ssa.Value, tmpFile ssa
 			}
 			if instrDominates(ct, call) && instrDominates(call, def) {
 				callee := calleeOf(call.Common())
-				if callee != "(*os.File).Name" {
+				// a call that cannot fail and cannot leave the function is harmless here: standard-library functions
+				// without an error result that only compute on their arguments (tmp.Name(), filepath.Join(...))
+				harmless := callee == "(*os.File).Name"
+				if sc := call.Common().StaticCallee(); sc != nil && errorResultIndex(sc) < 0 {
+					switch fnPkgPath(sc) {
+					case "path/filepath", "path", "strings", "strconv", "fmt":
+						if sc.Name() != "Print" && sc.Name() != "Printf" && sc.Name() != "Println" {
+							harmless = true
+						}
+					}
+				}
+				if !harmless {
 					between = append(between, callee)
 				}
 			}
